@@ -90,7 +90,10 @@ def main_c19(tier):
             sweep_recs.extend(part)
     if not cfg["sweep"]:
         # quick: only the last bytes of every sweep file
-        for part in pmap(dc.c19_tail_chunk, list(range(len(dc.minimal_cases())))):
+        tail_tasks = [(ci, part, 12 if ci in dc.LINE_BYTES else 1)
+                      for ci in range(len(dc.minimal_cases()))
+                      for part in range(12 if ci in dc.LINE_BYTES else 1)]
+        for part in pmap(dc.c19_tail_chunk, tail_tasks):
             sweep_recs.extend(part)
         sweeps.append({"what": "every sweep file cut 1, 2, 3, 16, 256, 4000 bytes before its end",
                        "files": len(dc.minimal_cases())})
